@@ -179,3 +179,11 @@ package fsm
 //@   callsite NewValidatorSet requires[wiring] arg0.ValidatorSet == members && (len(arg1) == 1 && arg1[0] == delegate)
 //@   loop 1 invariant[count] 0 <= iter && iter <= limit && len(members) == iter && limit == (maxPerCommittee > 0 && maxPerCommittee < len(filtered) ? maxPerCommittee : len(filtered))
 //@   loop 1 invariant[power] forall k int :: 0 <= k && k < iter ==> alloc(members[k]) && members[k].VotingPower == filtered[k].StakedAmount && members[k].PublicKey == filtered[k].PublicKey
+
+// ---- C06: replay protection ------------------------------------------------------------------------------
+// a transaction is admitted only for this network and chain, only if its hash is not yet indexed
+// (from height 2 on), and only inside the creation-height window (nonce-based RLP.V2 excepted)
+//@ func (*StateMachine).CheckReplay
+//@   ensures[network] result == nil ==> tx.NetworkId == s.NetworkID && tx.ChainId == s.Config.ChainId
+//@   ensures[notindexed] result == nil && s.height >= 2 && txHash != "" ==> !txIndexed(s.store, txHash)
+//@   ensures[window] result == nil && s.height >= 2 && tx.Memo != RLPV2Indicator ==> tx.CreatedHeight <= s.height + BlockAcceptanceRange && tx.CreatedHeight + BlockAcceptanceRange >= s.height
